@@ -8,6 +8,7 @@ import (
 	"os"
 
 	log "github.com/golang/glog"
+	"github.com/westerndigitalcorporation/blb/pkg/verifhook"
 )
 
 // logFile is a single file in WAL. It is responsible for managing the
@@ -25,7 +26,9 @@ type logFile struct {
 // createLogFile creates a log file at the given path. The log file
 // must not already exist.
 func createLogFile(path string) (*logFile, error) {
+	verifhook.At("wal.create.before", path)
 	f, err := os.OpenFile(path, os.O_RDWR|os.O_CREATE|os.O_EXCL, 0600)
+	verifhook.At("wal.create.after", path, err)
 	if err != nil {
 		log.Errorf("Failed to open %q: %v", path, err)
 		return nil, err
@@ -114,16 +117,22 @@ func openLogFileForRead(path string) (*logFile, error) {
 // previously written should still be readable.
 func (lf *logFile) Append(recs ...Record) (err error) {
 	for _, r := range recs {
+		verifhook.At("wal.write.before", lf.f.Name())
 		if err = r.serialize(lf.f); err != nil {
+			verifhook.At("wal.write.after", lf.f.Name(), err)
 			log.Errorf("Record write failed on %q: %v", lf.f.Name(), err)
 			return err
 		}
+		verifhook.At("wal.write.after", lf.f.Name(), nil)
 	}
 
+	verifhook.At("wal.sync.before", lf.f.Name())
 	if err = lf.f.Sync(); err != nil {
+		verifhook.At("wal.sync.after", lf.f.Name(), err)
 		log.Errorf("Failed to sync %q after append: %v", lf.f.Name(), err)
 		return err
 	}
+	verifhook.At("wal.sync.after", lf.f.Name(), nil)
 
 	log.V(10).Infof("Successfully appended %d records to %q", len(recs), lf.f.Name())
 	// Update bookkeeping
@@ -162,9 +171,12 @@ func (lf *logFile) Truncate(lastToKeep uint64) error {
 		return err
 	}
 
+	verifhook.At("wal.truncate.before", lf.f.Name())
 	if err := lf.f.Truncate(lf.getOffset()); err != nil {
+		verifhook.At("wal.truncate.after", lf.f.Name(), err)
 		return err
 	}
+	verifhook.At("wal.truncate.after", lf.f.Name(), nil)
 
 	// Update bookkeeping
 	if lastToKeep < lf.firstID {
@@ -285,9 +297,12 @@ func (lf *logFile) readRecord() (r Record, err error) {
 	if err == io.ErrUnexpectedEOF {
 		log.Errorf("Hit unexpected EOF reading from wal at offset %d. Truncating.", offset)
 
+		verifhook.At("wal.repair.before", lf.f.Name(), offset)
 		if err = lf.f.Truncate(offset); err != nil {
+			verifhook.At("wal.repair.after", lf.f.Name(), err)
 			return
 		}
+		verifhook.At("wal.repair.after", lf.f.Name(), nil)
 		if _, err = lf.f.Seek(offset, os.SEEK_SET); err != nil {
 			return
 		}
